@@ -73,7 +73,10 @@ RFUNCS = [("getNodeType", r"^int XMLReader::getNodeType\(\) const", "0"),
           ("committed", r"^bool XMLReader::committed\(\)", "false"),
           ("location", r"^bool XMLReader::location\(\)", "false"),
           ("branchpoint", r"^bool XMLReader::branchpoint\(\)", "false"),
-          ("transition", r"^bool XMLReader::transition\(\)", "false")]
+          ("transition", r"^bool XMLReader::transition\(\)", "false"),
+          ("declaration", r"^bool XMLReader::declaration\(\)", "false"),
+          ("parameter", r"^int XMLReader::parameter\(\)", "0"),
+          ("templ", r"^bool XMLReader::templ\(\)", "false")]
 
 
 def reader_slices(work):
@@ -125,6 +128,13 @@ def reader_slices(work):
         if nm in ("location", "branchpoint"):
             sl.sub("L15:auto->std::string", r"auto (l_id|b_id) = getAttributeStr", r"std::string \1 = getAttributeStr", required=True)
             sl.sub("L2:if (auto [_, ins] = m.insert_or_assign(k, v); !ins)", r"if \(auto \[_, ins\] = names\.insert_or_assign\((\w+), (\w+)\); !ins\)", r"if (!names.verif_insert_or_assign(\1, \2))", required=True)
+        if nm == "templ":
+            sl.sub("L19:auto p = make_shared<string>(s) -> string p = s (the tracker keeps the text either way)", r"auto t_path = std::make_shared<std::string>\((path\.str\(tag_t::TEMPLATE\))\);", r"std::string t_path = \1;", required=True)
+            n = 0
+            for callee in ("location", "branchpoint", "init", "transition"):
+                n += sl.sub("L12:callee->its contract (obligation: c04_reader_%s*)" % callee, r"(?<![\w:>\.])%s\(\)" % callee, callee + "__contract()")
+            if n < 1:  # a callee that templ() no longer calls at all is for the obligations to report, not for the extraction
+                raise X.ExtractionBroken("XMLReader::templ: no call of location / branchpoint / init / transition found")
         if nm == "transition":
             sl.sub("L4/L15:auto x = T{v}", r"auto actname = std::string\{id \? id : \"SKIP\"\};", 'std::string actname(id ? id : "SKIP");', required=True)
         sl.sub("L4:T{...}->T(...)", r"TypeException\{([^{}]*)\}", r"TypeException(\1)")
@@ -145,7 +155,7 @@ def reader_jobs(work, builder, for_c06=False):
     rh_kf = builder.cc(os.path.join(CDIR, "h_xr04.c"), includes=[work, CDIR])
     pre = "c06_xpath_" if for_c06 else "c04_reader_"
     jobs = []
-    FS = ["--max-field-sensitivity-array-size", "256"]  # constant propagation per cell for the script arrays (120 / 256 cells)
+    FS = ["--max-field-sensitivity-array-size", "700"]  # constant propagation per cell for the script arrays (<= 640 cells)
     common = ["XMLReader::begin", "XMLReader::end", "XMLReader::read", "XMLReader::getAttribute"]
     tf = ["XMLReader::transition", "XMLReader::source", "XMLReader::target", "XMLReader::reference", "XMLReader::get_name", "XMLReader::label (kind table generated from it)", "XMLReader::parse"]
     lf = ["XMLReader::location", "XMLReader::invariant", "XMLReader::urgent", "XMLReader::committed", "XMLReader::getAttributeStr"]
@@ -155,19 +165,23 @@ def reader_jobs(work, builder, for_c06=False):
     if for_c06:
         tshapes = tuple(s for s in tshapes if s[0] != "0")
     for sh in tshapes:
-        jobs.append(F.Job(pre + "transition_" + sh, "h_c04_reader_transition_" + sh, [robj, rh], unwind=30, functions=tf + common, bound_note=shape_note, cbmc_args=FS))
+        jobs.append(F.Job(pre + "transition_" + sh, "h_c04_reader_transition_" + sh, [robj, rh], unwind=44, functions=tf + common, bound_note=shape_note, cbmc_args=FS))
     kf_shapes = []
     for sh in lshapes:
-        jobs.append(F.Job(pre + "location_" + sh, "h_c04_reader_location_" + sh, [robj, rh], unwind=30, functions=lf + common, bound_note=shape_note, cbmc_args=FS,
+        jobs.append(F.Job(pre + "location_" + sh, "h_c04_reader_location_" + sh, [robj, rh], unwind=44, functions=lf + common, bound_note=shape_note, cbmc_args=FS,
                           note="known-finding class (rate label before invariant label) excluded: must pass" if (sh[1] == "2" and not for_c06) else ""))
         if sh[1] == "2":
             kf_shapes.append(sh)
     if not for_c06:
-        jobs.append(F.Job("c04_reader_init", "h_c04_reader_init", [robj, rh], unwind=30, functions=["XMLReader::init", "XMLReader::get_name"] + common, cbmc_args=FS))
-    jobs.append(F.Job(pre + "branchpoint", "h_c04_reader_branchpoint", [robj, rh], unwind=30, functions=["XMLReader::branchpoint", "XMLReader::getAttributeStr"] + common, cbmc_args=FS))
+        for sh in ("1112120", "0000011", "1011001", "0102210", "1110000"):
+            jobs.append(F.Job("c04_reader_templ_" + sh, "h_c04_reader_templ_" + sh, [robj, rh], unwind=44, cbmc_args=FS,
+                              functions=["XMLReader::templ (element readers by their contracts)", "XMLReader::declaration", "XMLReader::parameter"] + common,
+                              bound_note="one job per template shape: name / parameter / declaration present or not, 0-2 locations, 0-2 branchpoints, 0-2 transitions, with or without white space"))
+        jobs.append(F.Job("c04_reader_init", "h_c04_reader_init", [robj, rh], unwind=44, functions=["XMLReader::init", "XMLReader::get_name"] + common, cbmc_args=FS))
+    jobs.append(F.Job(pre + "branchpoint", "h_c04_reader_branchpoint", [robj, rh], unwind=44, functions=["XMLReader::branchpoint", "XMLReader::getAttributeStr"] + common, cbmc_args=FS))
     if not for_c06:
         for sh in kf_shapes:
-            jobs.append(F.Job("c04_kf1_reader_location_" + sh, "h_c04_reader_location_" + sh, [robj, rh_kf], unwind=30, functions=lf, cbmc_args=FS,
+            jobs.append(F.Job("c04_kf1_reader_location_" + sh, "h_c04_reader_location_" + sh, [robj, rh_kf], unwind=44, functions=lf, cbmc_args=FS,
                               known={r"invariant-and-rate-reach-the-builder-in-the-order-it-takes-them": "C04-KF1"}, note="unrestricted: fails exactly inside the known-finding class"))
     return jobs, rs
 
